@@ -38,10 +38,18 @@ def _user_contract_class(kind, mult, mreq):
         def symbol(self):
             return self._symbol
 
+        def __reduce__(self):
+            # picklable although the class is made at run time (checkpoint / resume in another process)
+            return (_rebuild_user_contract, (kind, mult, mreq, self._symbol))
+
     _UserContract.__name__ = prefix
     _UserContract.__qualname__ = prefix
     _USER_CLASSES[key] = _UserContract
     return _UserContract
+
+
+def _rebuild_user_contract(kind, mult, mreq, symbol):
+    return _user_contract_class(kind, mult, mreq)(symbol)
 
 
 FUTURE_CLASSES = {"ES": C.ES, "NK": C.NK, "ZN": C.ZN, "ZB": C.ZB, "ZF": C.ZF,
